@@ -32,7 +32,7 @@
 EXTENDS ReplaceTypeContract
 
 CONSTANTS Positions, Others, SrcKinds, Targets, Levels, Placements,   \* the dimensions the contract speaks about
-          Templates, Listings, Formatters, Kinds,   \* how a case is observed / spelled: no influence on the expected outcome
+          Templates, Listings, Formatters, Kinds, Extras, TdOpts,   \* how a case is observed / spelled: no influence on the expected outcome
           Wanted        \* set of dim tuples to export in full; {} = print dims only
 
 VARIABLES pos, other, srckind, target, level, place,
@@ -54,7 +54,8 @@ vars == <<pos, other, srckind, target, level, place, pc, cfg, out>>
 \*                 derive from the type (nil guards, zero values, ...) is covered by the harness's "native twin" oracle:
 \*                 the mock rendered under {T |-> R} must be textually the mock rendered, without the setting, for a
 \*                 twin interface written with R directly.
-ASSUME PrintT(<<"OBSDIMS", ToJson([templ |-> Templates, listing |-> Listings, fmt |-> Formatters, kinds |-> Kinds])>>)
+ASSUME PrintT(<<"OBSDIMS", ToJson([templ |-> Templates, listing |-> Listings, fmt |-> Formatters, kinds |-> Kinds,
+                                   extra |-> Extras, tdopt |-> TdOpts])>>)
 
 -----------------------------------------------------------------------------
 (* Code-shaped layer *)
@@ -64,9 +65,9 @@ Keys(m) == {e[1] : e \in m}
 MergeTyped(src, dst) == dst \cup {e \in src : e[1] \notin Keys(dst)}
 
 \* what the config file writes into the replace-type map of each config section
-Written(c, lv, key, tg) ==
-  LET m1 == {<<key, ToOf(tg)>>}
-      m2 == {<<key, To2Of(tg)>>}
+Written(c, lv, key, tg, tw) ==      \* tw: further entries written wherever an entry for the key is written
+  LET m1 == {<<key, ToOf(tg)>>} \cup tw
+      m2 == {<<key, To2Of(tg)>>} \cup tw
   IN CASE lv = "root"    -> IF c = "root" THEN m1 ELSE {}
        [] lv = "pkg"     -> IF c = "pkg" THEN m1 ELSE {}
        [] lv = "iface"   -> IF c = "i1" THEN m1 ELSE {}
@@ -76,6 +77,8 @@ Written(c, lv, key, tg) ==
        [] lv = "entry2y" -> IF c = "e0" THEN m2 ELSE IF c = "e1" THEN m1 ELSE {}
        [] lv = "iface2x" -> IF c = "i1" THEN m1 ELSE IF c = "i2" THEN m2 ELSE {}
        [] lv = "iface2y" -> IF c = "i1" THEN m2 ELSE IF c = "i2" THEN m1 ELSE {}
+       [] lv = "over_pi" -> IF c = "pkg" THEN m2 ELSE IF c = "i1" THEN m1 ELSE {}
+       [] lv = "over_re" -> IF c = "root" THEN m2 ELSE IF c = "e0" THEN m1 ELSE {}
 
 Init ==
   /\ pos \in Positions /\ other \in Others /\ srckind \in SrcKinds /\ target \in Targets
@@ -84,7 +87,7 @@ Init ==
   /\ pc = "root"
   /\ (pos \in GenericPos => srckind = "named")            \* the local configured type has one spelling
   /\ (level \in {"iface2x", "iface2y"} => other \in {"ifaceT", "ifaceU"})     \* a config for I2 needs I2
-  /\ cfg = [c \in {"root", "pkg", "i1", "i2", "e0", "e1"} |-> Written(c, level, KeyFor(pos, srckind), target)]
+  /\ cfg = [c \in {"root", "pkg", "i1", "i2", "e0", "e1"} |-> Written(c, level, KeyFor(pos, srckind), target, TwinMaps(other, srckind))]
   /\ out = [mocks |-> << >>, req |-> {}, forb |-> {}]
 
 \* RootConfig.Initialize: mergeConfigs(root, pkg)                      config.go:338-360
